@@ -219,6 +219,7 @@ class ScriptedInput:
 
 class ProfileEngine:
     prop = "C19"
+    track_history = True
     components = {
         "real": ["nanite.cli.profile (Profile, setup_profile), "
                  "nanite.cli.rating (fit_data, fit_perform), "
@@ -431,6 +432,17 @@ class ProfileEngine:
         argv = sys.argv
         sys.argv = ["nanite-setup-profile"]
         try:
+            if run.get("history") and not run.get("_child"):
+                # replay of a finding that depends on what this worker
+                # executed before (e.g. a process-wide cache)
+                for h in run["history"]:
+                    if path.exists():
+                        path.unlink()
+                    with core.Scratch("c19") as scratch:
+                        self._execute(h, scratch, prof, rating, path)
+                    rating.fit_data.cache_clear()
+                if path.exists():
+                    path.unlink()
             with core.Scratch("c19") as scratch:
                 return self._execute(run, scratch, prof, rating, path)
         finally:
